@@ -20,9 +20,6 @@ func (p *Proc) callbackClauses(name, kind string) []*Clause {
 				out = append(out, cl)
 			}
 		}
-		if len(out) > 0 {
-			return out
-		}
 	}
 	return out
 }
@@ -43,8 +40,9 @@ func cbArgNames(sig *types.Signature, args []Val) map[string]Val {
 // callValue handles a call through a function value.
 func (p *Proc) callValue(ec *ectx, funExpr ast.Expr, fv Val, sig *types.Signature, args []Val, call *ast.CallExpr) Val {
 	st := ec.st
-	v := p.varOfExpr(ec, funExpr)
-	if v != nil && p.cbParams[v.Name()] == v {
+	p.siteAsserts(ec, nil, args, call)
+	v := p.cbVar(ec, funExpr)
+	if v != nil {
 		name := v.Name()
 		extra := cbArgNames(sig, args)
 		site := fmt.Sprintf("%scb[%s#%d]", p.cur().prefix, name, p.callOrdinal(call))
@@ -100,9 +98,11 @@ func (p *Proc) callValue(ec *ectx, funExpr ast.Expr, fv Val, sig *types.Signatur
 		}
 		return tupleOf(results)
 	}
-	// unknown function value: anything may happen
+	// unknown function value: anything may happen to the heap; the invocation is counted
 	p.ctx.notes["calls through unknown function values havoc the heap"] = true
+	inv := p.heapGet(st, "G:$invoked", SInt)
 	p.havocAll(st)
+	p.heapSet(st, "G:$invoked", Add(inv, IntLit(1)))
 	var results []Val
 	for i := 0; i < sig.Results().Len(); i++ {
 		rt := sig.Results().At(i).Type()
@@ -138,13 +138,21 @@ func (p *Proc) handOver(ec *ectx, ct *Contract, fi *FuncInfo, sig *types.Signatu
 				mode = cl.Arg
 			}
 		}
+		if mode == "if-result" {
+			p.ctx.notes["work handed to a connection's Enqueue runs exactly once unless the connection is disposing (the client is gone)"] = true
+			mode = "exactly-once"
+		}
 		if mode != "exactly-once" {
 			continue
 		}
 		a := args[i]
+		if a.Closure != nil {
+			h := p.heapGet(st, "G:$handed", SInt)
+			p.heapSet(st, "G:$handed", Add(h, IntLit(1)))
+		}
 		// the caller's own callback passed on directly
 		if i < len(call.Args) {
-			if v := p.varOfExpr(ec, call.Args[i]); v != nil && p.cbParams[v.Name()] == v {
+			if v := p.cbVar(ec, call.Args[i]); v != nil {
 				st.resolved[v] = Add(orZero(st.resolved[v]), IntLit(1))
 				continue
 			}
@@ -186,10 +194,215 @@ func (p *Proc) onClosureCreated(ec *ectx, cv *ClosureVal) {
 	for i, cl := range cct.ByKind("requires") {
 		cec := p.specEc(ec.st, cv.Lit.Body.Lbrace)
 		cec.where = cl.Where
+		n0 := p.heapReads
 		g := p.eval(cec, cl.Expr)
+		if p.heapReads != n0 {
+			p.failf(cv.Lit, "%s: closure requires may only mention captured variables and immutable fields (it is proved when the closure is created and assumed when it runs)", cl.Where)
+		}
 		p.oblige(ec.st, "closure.pre", fmt.Sprintf("%sclosure#%d.pre[%d]", p.cur().prefix, cv.Ordinal, i+1), cl.Tags, g.T, cl.Where)
 	}
 }
 
-// closureEntry: nothing beyond `requires` is assumed on closure entry for now.
-func (p *Proc) closureEntry(st *State) {}
+// closureEntry: a closure passed directly to a callee parameter may assume what that callee
+// promises about the invocation (`callback P requires ...` clauses of the callee's contract,
+// which are proved at every place the callee invokes P).
+func (p *Proc) closureEntry(st *State) {
+	fi := p.fi
+	if fi.Lit == nil || fi.Parent == nil {
+		return
+	}
+	parent := fi.Parent
+	info := parent.Pkg.TypesInfo
+	var site *ast.CallExpr
+	argIdx := -1
+	ast.Inspect(parent.Body(), func(n ast.Node) bool {
+		if c, ok := n.(*ast.CallExpr); ok {
+			for i, a := range c.Args {
+				if ast.Unparen(a) == ast.Expr(fi.Lit) {
+					site, argIdx = c, i
+				}
+			}
+		}
+		return site == nil
+	})
+	if site == nil {
+		return
+	}
+	ec := &ectx{st: st, info: info, pkg: parent.Pkg.Types}
+	fn, recvExpr := p.calleeOf(ec, site)
+	if fn == nil {
+		return
+	}
+	sig := fn.Type().(*types.Signature)
+	// devirtualised interface methods use the implementation's contract
+	key := funcKeyOf(fn)
+	if sig.Recv() != nil && isIface(sig.Recv().Type()) {
+		if nt := namedOf(sig.Recv().Type()); nt != nil && nt.Obj().Pkg() != nil {
+			if impl, ok := p.ctx.dirs.Devirt[nt.Obj().Pkg().Path()+"."+nt.Obj().Name()]; ok {
+				i := lastDot(impl)
+				key = impl[:i] + ".(*" + impl[i+1:] + ")." + fn.Name()
+			}
+		}
+	}
+	ct := p.ctx.contracts[key]
+	if ct == nil {
+		if lib := p.ctx.libs[key]; lib != nil {
+			ct = lib
+		}
+	}
+	if ct == nil || argIdx >= sig.Params().Len() {
+		return
+	}
+	cfi := p.ctx.funcs[key]
+	pname := sig.Params().At(argIdx).Name()
+	if cfi != nil && cfi.Obj != nil {
+		pname = cfi.Obj.Type().(*types.Signature).Params().At(argIdx).Name()
+	}
+	cbsig, ok := sig.Params().At(argIdx).Type().Underlying().(*types.Signature)
+	if !ok {
+		return
+	}
+	var clauses []*Clause
+	for _, cl := range ct.Clauses {
+		if cl.Kind == "cb.requires" && cl.Param == pname {
+			clauses = append(clauses, cl)
+		}
+	}
+	if len(clauses) == 0 {
+		return
+	}
+	// the closure's own parameters, by the callee's names for them and by position
+	extra := map[string]Val{}
+	i := 0
+	for _, fld := range fi.Lit.Type.Params.List {
+		names := fld.Names
+		if len(names) == 0 {
+			i++
+			continue
+		}
+		for _, nm := range names {
+			if o, ok := info.Defs[nm].(*types.Var); ok && o != nil {
+				if t, ok := st.vars[o]; ok {
+					v := Val{T: t, Typ: o.Type()}
+					extra[fmt.Sprintf("arg%d", i)] = v
+					if i < cbsig.Params().Len() {
+						if n := cbsig.Params().At(i).Name(); n != "" && n != "_" {
+							extra[n] = v
+						}
+					}
+				}
+			}
+			i++
+		}
+	}
+	// the callee's receiver and parameters: the call-site expressions, when they only mention
+	// variables that are never reassigned in the enclosing procedure
+	p.lenient = true
+	defer func() { p.lenient = false }()
+	bindExpr := func(name string, e ast.Expr) {
+		if name == "" || name == "_" || e == nil || !p.finalExpr(parent, e) {
+			return
+		}
+		func() {
+			defer func() {
+				if r := recover(); r != nil {
+					if _, ok := r.(verr); !ok {
+						panic(r)
+					}
+				}
+			}()
+			v := p.eval(&ectx{st: st, info: info, pkg: parent.Pkg.Types, spec: true}, e)
+			if v.T != nil {
+				extra[name] = v
+			}
+		}()
+	}
+	if recvExpr != nil && cfi != nil && cfi.Decl != nil && cfi.Decl.Recv != nil && len(cfi.Decl.Recv.List[0].Names) > 0 {
+		bindExpr(cfi.Decl.Recv.List[0].Names[0].Name, recvExpr)
+	}
+	for j, a := range site.Args {
+		if j == argIdx || j >= sig.Params().Len() {
+			continue
+		}
+		n := sig.Params().At(j).Name()
+		if cfi != nil && cfi.Obj != nil {
+			n = cfi.Obj.Type().(*types.Signature).Params().At(j).Name()
+		}
+		bindExpr(n, a)
+	}
+	for _, cl := range clauses {
+		func() {
+			defer func() {
+				if r := recover(); r != nil {
+					if _, ok := r.(verr); !ok {
+						panic(r)
+					}
+				}
+			}()
+			cec := p.contractEc(st, ct, cfi, fn, extra)
+			cec.where = cl.Where
+			g := p.eval(cec, cl.Expr)
+			st.assume(g.T)
+			p.ctx.notes["closures assume the callee's callback promise (callback P requires ...) of the function they are passed to"] = true
+		}()
+	}
+}
+
+func lastDot(s string) int {
+	for i := len(s) - 1; i >= 0; i-- {
+		if s[i] == '.' {
+			return i
+		}
+	}
+	return -1
+}
+
+// finalExpr: every variable mentioned by e is assigned at most once (its declaration) in the procedure.
+func (p *Proc) finalExpr(fi *FuncInfo, e ast.Expr) bool {
+	info := fi.Pkg.TypesInfo
+	ok := true
+	ast.Inspect(e, func(n ast.Node) bool {
+		id, isID := n.(*ast.Ident)
+		if !isID {
+			return true
+		}
+		v, isVar := info.Uses[id].(*types.Var)
+		if !isVar || v.IsField() || (v.Pkg() != nil && v.Parent() == v.Pkg().Scope()) {
+			return true
+		}
+		if !finalVar(fi.root(), v) {
+			ok = false
+		}
+		return true
+	})
+	return ok
+}
+
+func finalVar(root *FuncInfo, v *types.Var) bool {
+	info := root.Pkg.TypesInfo
+	assigns := 0
+	ast.Inspect(root.Decl, func(n ast.Node) bool {
+		switch x := n.(type) {
+		case *ast.AssignStmt:
+			for _, l := range x.Lhs {
+				if id, ok := ast.Unparen(l).(*ast.Ident); ok {
+					if info.Uses[id] == v {
+						assigns++
+					}
+				}
+			}
+		case *ast.IncDecStmt:
+			if id, ok := ast.Unparen(x.X).(*ast.Ident); ok && info.Uses[id] == v {
+				assigns++
+			}
+		case *ast.UnaryExpr:
+			if x.Op.String() == "&" {
+				if id, ok := ast.Unparen(x.X).(*ast.Ident); ok && info.Uses[id] == v {
+					assigns++
+				}
+			}
+		}
+		return true
+	})
+	return assigns == 0
+}
